@@ -12,3 +12,11 @@ func init() {
 		walkCheck("C05", []string{"C05:"}, 2, 3)(c)
 	}
 }
+
+func init() {
+	Registry["C18"] = func(c *Ctx) {
+		c.R.Rule = "scenario = (graph of <=4 nodes, optional failing target, fail-fast, num_workers) plus one external cancel event (what SIGINT/SIGTERM trigger via SetupCommand's context) delivered by a dedicated goroutine at ANY scheduling point; real Walker + pool under every choice sequence with <= d deviations; oracles: Walk returns, no command starts after the cancel was delivered, an interrupt with unfinished targets surfaces as an error. Non-trivial = at least one command ran."
+		c.R.Assume("the signal is modelled as cancellation of the root context (console.SetupCommand does exactly that on SIGINT/SIGTERM)", "commands are stubs that, like exec.CommandContext, do not start under a cancelled context and are killed when it is cancelled")
+		walkCheck("C18", []string{"C18:", "C04:walk-never-returns", "C04:panic"}, 2, 3)(c)
+	}
+}
